@@ -1499,6 +1499,10 @@ Proof.
     destruct (group_lists (exN scs) sc m members s1) as [[s' logs] rz] eqn:E. cbn [fst].
     apply (inv_bt_group_lists _ (good_exN scs) sc m members s1 s' logs rz I B); [|exact E].
     intros a Ha. destruct I as [(_ & _ & W3 & _) _]. apply (W3 s0 members El). exact Ha.
+  - destruct (lookup s0 (sets s1)) as [members|]; [|split; assumption].
+    destruct (m <=? 0); split; assumption.
+  - destruct (lookup s0 (sets s1)) as [members|]; [|split; assumption].
+    destruct (m <=? 0); split; assumption.
 Qed.
 
 (* the state reached by a history *)
@@ -1928,3 +1932,107 @@ Qed.
 Lemma activate_frames_restored scs k perm sc snap s s' log rz :
   activate (exN scs) k perm sc snap s = Some (s', log, rz) -> cur s' = cur s.
 Proof. apply activate_cur. apply keeps_exN. Qed.
+
+(* ------------------------------------------------------------------ Part N: an exception inside a list group *)
+Lemma visit_held_raised ex sc order s : keeps_frames ex ->
+  (forall a, In a order -> In (Some a) (tl (cur s))) ->
+  vrz (visit ex sc order s) = true ->
+  exists pre r post, order = pre ++ r :: post /\ vlog (visit ex sc order s) = pre ++ [r].
+Proof.
+  intros K Hh Hz. destruct (visit_raised ex sc order s Hz) as (pre & r & post & -> & Hp & _ & _ & Hl & _).
+  exists pre, r, post. split; [reflexivity|]. rewrite Hl. f_equal.
+  apply (visit_held ex sc pre K s); [|exact Hp]. intros a Ha. apply Hh. apply in_or_app. left. exact Ha.
+Qed.
+
+(* the groups before the one in which the exception happened are complete, that group's log is the part
+   of the list up to and including the raiser, later groups are not reached *)
+Lemma visit_lists_raised ex sc gs : keeps_frames ex -> forall s s' logs,
+  (forall key g a, In (key, g) gs -> In a g -> In (Some a) (cur s)) ->
+  visit_lists ex sc gs s = (s', logs, true) ->
+  exists gs1 key pre r post gs2,
+    gs = gs1 ++ (key, pre ++ r :: post) :: gs2 /\ logs = gs1 ++ [(key, pre ++ [r])].
+Proof.
+  intros K. induction gs as [|[key g] gs IH]; intros s s' logs Hh; simpl; [intros H; inversion H|].
+  destruct (visit ex sc g (push_frame s)) as [[s1 log1] rz1] eqn:E.
+  assert (forall a, In a g -> In (Some a) (tl (cur (push_frame s)))) as Hg.
+  { intros a Ha. cbn [cur push_frame set_frames tl]. apply (Hh key g a); [left; reflexivity|exact Ha]. }
+  destruct rz1.
+  - intros H. inversion H; subst.
+    pose proof (visit_held_raised ex sc g (push_frame s) K Hg) as Hr. rewrite E in Hr.
+    destruct (Hr eq_refl) as (pre & r & post & -> & Hl). unfold vlog in Hl. cbn [fst snd] in Hl. subst log1.
+    exists [], key, pre, r, post, gs. split; reflexivity.
+  - destruct (visit_lists ex sc gs (sweep (pop_frame s1))) as [[s2 logs2] rz2] eqn:E2.
+    intros H. inversion H; subst.
+    assert (log1 = g) as ->.
+    { pose proof (visit_held ex sc g K (push_frame s) Hg) as Hv. rewrite E in Hv. apply Hv. reflexivity. }
+    destruct (IH (sweep (pop_frame s1)) s' logs2) as (gs1 & k0 & pre & r & post & gs2 & -> & ->); [|exact E2|].
+    + intros k0 g0 a Hin Ha. cbn [cur sweep set_sets pop_frame set_frames].
+      pose proof (visit_tl ex sc g (push_frame s) K) as Ht. rewrite E in Ht. unfold vst in Ht. cbn [fst] in Ht.
+      rewrite Ht. cbn [cur push_frame set_frames tl]. apply (Hh k0 g0 a); [right; exact Hin|exact Ha].
+    + exists ((key, g) :: gs1), k0, pre, r, post, gs2. split; reflexivity.
+Qed.
+
+Lemma group_lists_raised scs sc m members s s' logs :
+  group_lists (exN scs) sc m members s = (s', logs, true) ->
+  exists gs1 key pre r post gs2,
+    groups_of m members = gs1 ++ (key, pre ++ r :: post) :: gs2 /\ logs = gs1 ++ [(key, pre ++ [r])].
+Proof.
+  unfold group_lists.
+  destruct (visit_lists (exN scs) sc (groups_of m members) (hold members s)) as [[s1 logs1] rz1] eqn:E.
+  intros H. inversion H; subst.
+  eapply (visit_lists_raised (exN scs) sc _ (keeps_exN scs)); [|exact E].
+  intros key g a Hin Ha. rewrite (groups_of_spec m members key g Hin) in Ha. apply filter_In in Ha.
+  cbn [cur hold set_frames]. apply in_or_app. left. apply in_map. apply Ha.
+Qed.
+
+(* ------------------------------------------------------------------ Part O: GroupBy.count partitions the set *)
+Lemma zsum_map_add {A} (f g : A -> Z) l : zsum (map (fun x => f x + g x) l) = zsum (map f l) + zsum (map g l).
+Proof. induction l as [|x t IH]; simpl; [reflexivity|]. rewrite IH. lia. Qed.
+
+Lemma count_ones keys v : NoDup keys -> In v keys -> zsum (map (fun k => if v =? k then 1 else 0) keys) = 1.
+Proof.
+  induction keys as [|k t IH]; simpl; intros Hn Hin; [tauto|]. inversion Hn; subst.
+  destruct (v =? k) eqn:E.
+  - apply Z.eqb_eq in E. subst k.
+    assert (zsum (map (fun k => if v =? k then 1 else 0) t) = 0) as ->; [|lia].
+    clear IH Hn Hin H2. induction t as [|y t IH]; simpl; [reflexivity|].
+    destruct (v =? y) eqn:Ey; [apply Z.eqb_eq in Ey; subst; exfalso; apply H1; left; reflexivity|].
+    rewrite IH; [lia|]. intros Hin. apply H1. right. exact Hin.
+  - destruct Hin as [Hin|Hin]; [subst; rewrite Z.eqb_refl in E; discriminate|]. rewrite (IH H2 Hin). lia.
+Qed.
+
+Lemma group_sizes (key : Z -> Z) l keys :
+  NoDup keys -> (forall x, In x l -> In (key x) keys) ->
+  zsum (map (fun k => Z.of_nat (length (filter (fun a => key a =? k) l))) keys) = Z.of_nat (length l).
+Proof.
+  intros Hn. induction l as [|x t IH]; intros Hin.
+  - simpl. clear Hn Hin. induction keys as [|k ks IHk]; simpl; [reflexivity|]. simpl in IHk. rewrite IHk. reflexivity.
+  - rewrite (map_ext _ (fun k => (if key x =? k then 1 else 0) + Z.of_nat (length (filter (fun a => key a =? k) t)))).
+    + rewrite zsum_map_add, IH, count_ones; [simpl length; lia|exact Hn|apply Hin; left; reflexivity|].
+      intros y Hy. apply Hin. right. exact Hy.
+    + intros k. simpl. destruct (key x =? k); simpl length; lia.
+Qed.
+
+(* GroupBy.count() of a reachable set: keys in first-seen order, each count = the members with that key,
+   and the counts add up to the size of the set *)
+Lemma reached_count ops r m members :
+  lookup r (sets (reached ops)) = Some members ->
+  map fst (group_count (groups_of m members) (reached ops)) = group_keys m members /\
+  (forall k c, In (k, c) (group_count (groups_of m members) (reached ops)) ->
+               c = Z.of_nat (length (filter (fun a => gkey m a =? k) members))) /\
+  zsum (map snd (group_count (groups_of m members) (reached ops))) = Z.of_nat (length members).
+Proof.
+  intros H. destruct (reached_set ops r members H) as [_ Hal].
+  assert (forall k, filter (alive (reached ops)) (filter (fun a => gkey m a =? k) members)
+                    = filter (fun a => gkey m a =? k) members) as Hf.
+  { intros k. apply filter_true_id. intros x Hx. apply filter_In in Hx. apply Hal. apply Hx. }
+  assert (group_count (groups_of m members) (reached ops)
+          = map (fun k => (k, Z.of_nat (length (filter (fun a => gkey m a =? k) members)))) (group_keys m members)) as Hc.
+  { unfold group_count, groups_of. rewrite map_map. apply map_ext. intros k. cbn [fst snd]. rewrite Hf. reflexivity. }
+  rewrite Hc. repeat split.
+  - rewrite map_map. cbn [fst]. apply map_id.
+  - intros k c Hin. apply in_map_iff in Hin. destruct Hin as (k0 & Heq & _). inversion Heq; subst. reflexivity.
+  - rewrite map_map. cbn [snd]. apply group_sizes.
+    + apply (dedup_first_NoDup Z.eqb Z.eqb_eq).
+    + intros x Hx. apply (dedup_first_In Z.eqb Z.eqb_eq). apply in_map. exact Hx.
+Qed.
